@@ -1,6 +1,648 @@
-//! C33 — not built yet.
-use vcommon::Args;
+//! C33 — generated proxies and interfaces agree on the wire.
+//!
+//! Space (programs x inputs): every method of the generated bank (hand-written `#[proxy]` traits
+//! for six interfaces, proxies derived by `#[interface(proxy(..))]` for two) x every argument
+//! tuple of the leaf domains; every property x every value of its domain x {read, server-side
+//! change, write through the proxy} x property caching {off, lazily}; every signal x every
+//! argument tuple x emission route {associated fn + SignalEmitter, InterfaceRef + *Signals trait}.
+//! All of it twice: the async proxies inside the single-threaded World on the default schedule
+//! (run to quiescence; a call that does not complete there is a deadlock/lost wake-up, no clock
+//! involved), and the blocking proxies on a free-running p2p pair over a real socketpair with
+//! real threads — inputs enumerated exhaustively, **schedule not controlled** (stated in the
+//! evidence). A blocking operation that does not finish within the watchdog is re-run in a fresh
+//! pair; it is reported as a hang only if it times out three times, otherwise the run is a
+//! machinery failure (exit 2).
 
-pub fn main(_args: &Args) -> i32 {
-    vcommon::machinery_failure("C33: check not built yet")
+use std::{
+    os::unix::net::UnixStream,
+    sync::{mpsc, Arc, Mutex},
+    time::Duration,
+};
+
+use futures_lite::StreamExt;
+use serde_json::{json, Value as J};
+use vcommon::{catch, hash64, par_for, Args, Report, Violation};
+
+use crate::{bank::*, c26::BankWorld, world::GUID};
+
+const WATCHDOG: Duration = Duration::from_secs(60);
+
+/// One unit of work = one proxy object and everything enumerated on it.
+#[derive(Clone, Debug)]
+enum Job {
+    Method { id: u16, path: &'static str },
+    Props { iface: usize, path: &'static str, cache: bool },
+    Signals { iface: usize, path: &'static str, route: u8 },
+}
+
+impl Job {
+    fn to_json(&self) -> J {
+        match self {
+            Job::Method { id, path } => json!({"job": "method", "id": id, "path": path}),
+            Job::Props { iface, path, cache } => json!({"job": "props", "iface": iface, "path": path, "cache": cache}),
+            Job::Signals { iface, path, route } => json!({"job": "signals", "iface": iface, "path": path, "route": route}),
+        }
+    }
+    fn from_json(j: &J) -> Option<Job> {
+        let path = ALL_PATHS.iter().find(|p| Some(**p) == j["path"].as_str())?;
+        Some(match j["job"].as_str()? {
+            "method" => Job::Method { id: j["id"].as_u64()? as u16, path },
+            "props" => Job::Props { iface: j["iface"].as_u64()? as usize, path, cache: j["cache"].as_bool()? },
+            "signals" => Job::Signals { iface: j["iface"].as_u64()? as usize, path, route: j["route"].as_u64()? as u8 },
+            _ => return None,
+        })
+    }
+}
+
+fn jobs() -> Vec<Job> {
+    let mut out = vec![];
+    for m in METHODS {
+        for path in IFACES[m.iface].paths {
+            out.push(Job::Method { id: m.id, path });
+        }
+    }
+    for d in IFACES {
+        for path in d.paths {
+            for cache in [false, true] {
+                out.push(Job::Props { iface: d.idx, path, cache });
+            }
+            for route in [0, 1] {
+                out.push(Job::Signals { iface: d.idx, path, route });
+            }
+        }
+    }
+    out
+}
+
+fn tuples(ins: &[&str]) -> Vec<Vec<Val>> {
+    let doms: Vec<Vec<Val>> = ins.iter().map(|s| domain(s)).collect();
+    let dims: Vec<usize> = doms.iter().map(|d| d.len()).collect();
+    let mut out = vec![];
+    vcommon::enumerate::product(&dims, |ix| {
+        out.push(ix.iter().enumerate().map(|(i, k)| doms[i][*k].clone()).collect());
+    });
+    out
+}
+
+/// A finding of one evaluated step: (clause, text, step description, kind feature).
+struct Bad {
+    clause: &'static str,
+    text: String,
+    step: J,
+    kind: &'static str,
+}
+
+/// Evaluation sink shared by both drivers.
+struct Sink<'a> {
+    report: &'a Report,
+    mode: &'static str,
+    job: Job,
+    bad: Vec<Bad>,
+}
+
+impl Sink<'_> {
+    fn step(&mut self, kind: &'static str, canon: &J, outcome: &str) {
+        self.report.eval(1);
+        self.report.nontrivial(hash64(&(self.mode, canon.to_string())));
+        self.report.outcome(&format!("{}: {kind}: {outcome}", self.mode));
+    }
+    fn fail(&mut self, clause: &'static str, kind: &'static str, step: J, text: String) {
+        self.bad.push(Bad { clause, text, step, kind });
+    }
+    fn flush(self) -> Vec<(String, String)> {
+        let mut out = vec![];
+        for b in self.bad {
+            out.push((b.clause.to_string(), format!("step {}: {}", b.step, b.text)));
+            let what = match &self.job {
+                Job::Method { id, .. } => {
+                    let m = &METHODS[*id as usize];
+                    format!(
+                        "{}.{} ({} {:?} async={} mut={} style={} derived_proxy={})",
+                        IFACES[m.iface].name, m.member, m.rust, m.fall, m.is_async, m.is_mut, m.style, IFACES[m.iface].derived_proxy
+                    )
+                }
+                Job::Props { iface, cache, .. } => format!("properties of {} (cache={cache})", IFACES[*iface].name),
+                Job::Signals { iface, route, .. } => format!("signals of {} (route {route})", IFACES[*iface].name),
+            };
+            self.report.violation(
+                Violation::new(
+                    b.clause,
+                    format!("[{} proxy] {what}: {}", self.mode, b.text),
+                    json!({"mode": self.mode, "job": self.job.to_json(), "step": b.step}),
+                )
+                .feat("mode", self.mode)
+                .feat("kind", b.kind),
+            );
+        }
+        out
+    }
+}
+
+fn judge_call(sink: &mut Sink, m: &MethodDesc, path: &str, args: &[Val], res: Option<CallResult>, log: Vec<Call>) {
+    let step = json!({"call": m.id, "args": vals_to_json(args)});
+    let want_log = vec![Call { id: m.id, inst: inst_of_path(path), args: args.to_vec() }];
+    let exp = expected(m, args);
+    let Some(res) = res else {
+        sink.step("method", &step, "did-not-complete");
+        sink.fail("call-completes", "method", step, format!("call with {args:?} did not complete (no task enabled); handler log {log:?}"));
+        return;
+    };
+    sink.step(
+        "method",
+        &step,
+        match (&exp, &res) {
+            (Expect::Reply(_), Ok(_)) => "result",
+            (Expect::Error { .. }, Err(_)) => "handler-error",
+            _ => "mismatch",
+        },
+    );
+    if log != want_log {
+        sink.fail("args-delivered", "method", step.clone(), format!("proxy sent {args:?}; handler log {log:?}"));
+    }
+    match (&exp, &res) {
+        (Expect::Reply(w), Ok(g)) if w == g => {}
+        (Expect::Error { name, msg }, Err((gn, gm))) if gn == name && gm == msg => {}
+        _ => sink.fail(
+            "result-returned",
+            "method",
+            step,
+            format!("proxy call with {args:?} returned {res:?}; the handler produced {exp:?}"),
+        ),
+    }
+}
+
+// ---------------------------------------------------------------------------------------------
+// async proxies inside the World
+// ---------------------------------------------------------------------------------------------
+
+fn run_async(report: &Report, job: &Job) -> Vec<(String, String)> {
+    let mut sink = Sink { report, mode: "async", job: job.clone(), bad: vec![] };
+    let mut b = BankWorld::new();
+    let (iface, path, cache) = match job {
+        Job::Method { id, path } => (METHODS[*id as usize].iface, *path, false),
+        Job::Props { iface, path, cache } => (*iface, *path, *cache),
+        Job::Signals { iface, path, .. } => (*iface, *path, false),
+    };
+    let c = b.client.clone();
+    let built = b.w.complete("build-proxy", async move { AnyProxy::build(&c, path, iface, cache).await });
+    let proxy = match built {
+        Some(Ok(p)) => Arc::new(p),
+        other => {
+            sink.step("build", &job.to_json(), "failed");
+            sink.fail(
+                "call-completes",
+                "build",
+                json!("build"),
+                format!("building the proxy: {:?}", other.map(|r| r.err().map(|e| e.to_string()))),
+            );
+            return sink.flush();
+        }
+    };
+    b.reg.take_log();
+    match job {
+        Job::Method { id, path } => {
+            let m = &METHODS[*id as usize];
+            for args in tuples(m.ins) {
+                let (p, a) = (proxy.clone(), args.clone());
+                let id = *id;
+                let res = catch(|| b.w.complete("call", async move { p.call(id, &a).await }));
+                let log = b.reg.take_log();
+                match res {
+                    Ok(r) => judge_call(&mut sink, m, path, &args, r, log),
+                    Err(p) => sink.fail("call-completes", "method", json!({"call": id, "args": vals_to_json(&args)}), format!("panic: {p}")),
+                }
+            }
+        }
+        Job::Props { iface, path, cache } => {
+            let st = b.reg.state(path, *iface).clone();
+            for pd in PROPS.iter().filter(|p| p.iface == *iface) {
+                let mut ops: Vec<(&'static str, Val)> = vec![("read", st.prop(pd.name))];
+                for v in domain(pd.sig) {
+                    ops.push(("server-change", v.clone()));
+                    if pd.writable {
+                        ops.push(("write", v));
+                    }
+                }
+                for (op, v) in ops {
+                    let step = json!({"prop": pd.idx, "op": op, "value": v.to_json()});
+                    let mut problems: Vec<(&'static str, String)> = vec![];
+                    match op {
+                        "server-change" => {
+                            st.set_prop(pd.name, v.clone());
+                            if *cache && pd.emits {
+                                let (s, p) = (b.server.clone(), path.to_string());
+                                let (i, k) = (*iface, pd.idx);
+                                let r = b.w.complete("changed", async move { emit_prop_changed(&s, &p, i, k).await.map_err(|e| e.to_string()) });
+                                if r != Some(Ok(())) {
+                                    problems.push(("property-read", format!("emitting PropertiesChanged: {r:?}")));
+                                }
+                            }
+                        }
+                        "write" => {
+                            let (p, vv, k) = (proxy.clone(), v.clone(), pd.idx);
+                            let r = b.w.complete("set", async move { p.set(k, &vv).await });
+                            let log = b.reg.take_log();
+                            let want = vec![Call { id: 10000 + (*iface as u16) * 10 + pd.idx as u16, inst: inst_of_path(path), args: vec![v.clone()] }];
+                            if r != Some(Ok(())) || log != want || st.prop(pd.name) != v {
+                                problems.push((
+                                    "property-write",
+                                    format!("set({v:?}) through the proxy gave {r:?}; setter log {log:?}; server now holds {:?}", st.prop(pd.name)),
+                                ));
+                            }
+                        }
+                        _ => {}
+                    }
+                    let (p, k) = (proxy.clone(), pd.idx);
+                    let got = b.w.complete("get", async move { p.get(k).await });
+                    b.reg.take_log();
+                    let held = st.prop(pd.name);
+                    if got != Some(Ok(held.clone())) {
+                        problems.push((
+                            "property-read",
+                            format!("after {op} the server holds {held:?} but the proxy reads {got:?}"),
+                        ));
+                    }
+                    sink.step("property", &json!({"iface": iface, "path": path, "cache": cache, "step": step}), if problems.is_empty() { op } else { "mismatch" });
+                    for (cl, t) in problems {
+                        sink.fail(cl, "property", step.clone(), format!("{} ({}{}): {t}", pd.name, pd.sig, if pd.emits { "" } else { ", emits-changed=false" }));
+                    }
+                }
+            }
+        }
+        Job::Signals { iface, path, route } => {
+            for sd in SIGNALS.iter().filter(|s| s.iface == *iface) {
+                let (p, k) = (proxy.clone(), sd.idx);
+                let sub = b.w.complete("subscribe", async move { p.subscribe(k).await });
+                let stream = match sub {
+                    Some(Ok(s)) => Arc::new(Mutex::new(Some(s))),
+                    other => {
+                        sink.step("signal", &json!({"iface": iface, "sig": sd.idx, "subscribe": true}), "subscribe-failed");
+                        sink.fail(
+                            "signal-arrives",
+                            "signal",
+                            json!({"signal": sd.idx, "subscribe": true}),
+                            format!("subscribing to {}: {:?}", sd.member, other.map(|r| r.err().map(|e| e.to_string()))),
+                        );
+                        continue;
+                    }
+                };
+                for args in tuples(sd.ins) {
+                    let step = json!({"signal": sd.idx, "args": vals_to_json(&args)});
+                    let (s, pth, a) = (b.server.clone(), path.to_string(), args.clone());
+                    let (i, k, r) = (*iface, sd.idx, *route);
+                    let em = b.w.complete("emit", async move { emit_signal(&s, &pth, i, k, &a, r).await.map_err(|e| e.to_string()) });
+                    let slot = stream.clone();
+                    let item = b.w.complete("next", async move {
+                        let mut s = slot.lock().unwrap().take()?;
+                        let it = s.next().await;
+                        *slot.lock().unwrap() = Some(s);
+                        it
+                    });
+                    let ok = em == Some(Ok(())) && item == Some(Some(Ok(args.clone())));
+                    sink.step("signal", &json!({"iface": iface, "path": path, "route": route, "step": step}), if ok { "arrived" } else { "mismatch" });
+                    if !ok {
+                        sink.fail(
+                            "signal-arrives",
+                            "signal",
+                            step,
+                            format!("{} emitted with {args:?} (emit: {em:?}); the proxy stream yielded {item:?}", sd.member),
+                        );
+                        if item.is_none() {
+                            break; // the stream is stuck inside the unfinished future
+                        }
+                    }
+                }
+            }
+        }
+    }
+    if b.w.hit_horizon {
+        report.cap("settle guard hit");
+    }
+    sink.flush()
+}
+
+// ---------------------------------------------------------------------------------------------
+// blocking proxies on a free-running pair
+// ---------------------------------------------------------------------------------------------
+
+struct LivePair {
+    client: zbus::blocking::Connection,
+    server: zbus::Connection,
+    reg: Registered,
+}
+
+fn live_pair() -> Result<LivePair, String> {
+    let (a, b) = UnixStream::pair().map_err(|e| e.to_string())?;
+    let srv = std::thread::spawn(move || {
+        zbus::block_on(async move {
+            let conn = zbus::connection::Builder::unix_stream(b)
+                .server(GUID)
+                .map_err(|e| e.to_string())?
+                .p2p()
+                .build()
+                .await
+                .map_err(|e| e.to_string())?;
+            let reg = register_layout(&conn).await.map_err(|e| e.to_string())?;
+            Ok::<_, String>((conn, reg))
+        })
+    });
+    let client = zbus::blocking::connection::Builder::unix_stream(a)
+        .p2p()
+        .build()
+        .map_err(|e| format!("client: {e}"))?;
+    let (server, reg) = srv.join().map_err(|_| "server thread panicked".to_string())??;
+    Ok(LivePair { client, server, reg })
+}
+
+/// Messages from the worker thread: evaluated steps are applied on the driver side.
+enum Ev {
+    Step { kind: &'static str, canon: J, outcome: String },
+    Fail { clause: &'static str, kind: &'static str, step: J, text: String },
+    /// About to start a potentially blocking operation (for the hang report).
+    Begin(J),
+    Done,
+}
+
+fn blocking_worker(job: Job, tx: mpsc::Sender<Ev>) {
+    let send = |e: Ev| {
+        let _ = tx.send(e);
+    };
+    let fail = |clause: &'static str, kind: &'static str, step: J, text: String| {
+        let _ = tx.send(Ev::Fail { clause, kind, step, text });
+    };
+    let pair = match live_pair() {
+        Ok(p) => p,
+        Err(e) => {
+            fail("machinery", "build", json!("pair"), format!("cannot build the live pair: {e}"));
+            send(Ev::Done);
+            return;
+        }
+    };
+    let (iface, path, cache) = match &job {
+        Job::Method { id, path } => (METHODS[*id as usize].iface, *path, false),
+        Job::Props { iface, path, cache } => (*iface, *path, *cache),
+        Job::Signals { iface, path, .. } => (*iface, *path, false),
+    };
+    send(Ev::Begin(json!("build-proxy")));
+    let proxy = match AnyBlocking::build(&pair.client, path, iface, cache) {
+        Ok(p) => p,
+        Err(e) => {
+            fail("call-completes", "build", json!("build"), format!("building the blocking proxy: {e}"));
+            send(Ev::Done);
+            return;
+        }
+    };
+    pair.reg.take_log();
+    match &job {
+        Job::Method { id, path } => {
+            let m = &METHODS[*id as usize];
+            for args in tuples(m.ins) {
+                let step = json!({"call": id, "args": vals_to_json(&args)});
+                send(Ev::Begin(step.clone()));
+                let res = catch(|| proxy.call(*id, &args));
+                let log = pair.reg.take_log();
+                let want_log = vec![Call { id: m.id, inst: inst_of_path(path), args: args.clone() }];
+                let exp = expected(m, &args);
+                match res {
+                    Err(p) => fail("call-completes", "method", step, format!("panic: {p}")),
+                    Ok(res) => {
+                        let oc = match (&exp, &res) {
+                            (Expect::Reply(_), Ok(_)) => "result",
+                            (Expect::Error { .. }, Err(_)) => "handler-error",
+                            _ => "mismatch",
+                        };
+                        send(Ev::Step { kind: "method", canon: step.clone(), outcome: oc.into() });
+                        if log != want_log {
+                            fail("args-delivered", "method", step.clone(), format!("proxy sent {args:?}; handler log {log:?}"));
+                        }
+                        let same = match (&exp, &res) {
+                            (Expect::Reply(w), Ok(g)) => w == g,
+                            (Expect::Error { name, msg }, Err((gn, gm))) => gn == name && gm == msg,
+                            _ => false,
+                        };
+                        if !same {
+                            fail("result-returned", "method", step, format!("proxy call with {args:?} returned {res:?}; the handler produced {exp:?}"));
+                        }
+                    }
+                }
+            }
+        }
+        Job::Props { iface, path, cache } => {
+            let st = pair.reg.state(path, *iface).clone();
+            for pd in PROPS.iter().filter(|p| p.iface == *iface) {
+                let mut ops: Vec<(&'static str, Val)> = vec![("read", st.prop(pd.name))];
+                for v in domain(pd.sig) {
+                    ops.push(("server-change", v.clone()));
+                    if pd.writable {
+                        ops.push(("write", v));
+                    }
+                }
+                for (op, v) in ops {
+                    let step = json!({"prop": pd.idx, "op": op, "value": v.to_json()});
+                    send(Ev::Begin(step.clone()));
+                    let mut problems: Vec<(&'static str, String)> = vec![];
+                    let mut wait_for_cache = false;
+                    match op {
+                        "server-change" => {
+                            st.set_prop(pd.name, v.clone());
+                            if *cache && pd.emits {
+                                let r = zbus::block_on(emit_prop_changed(&pair.server, path, *iface, pd.idx)).map_err(|e| e.to_string());
+                                if r != Ok(()) {
+                                    problems.push(("property-read", format!("emitting PropertiesChanged: {r:?}")));
+                                }
+                                wait_for_cache = true;
+                            }
+                        }
+                        "write" => {
+                            let r = proxy.set(pd.idx, &v);
+                            let log = pair.reg.take_log();
+                            let want = vec![Call { id: 10000 + (*iface as u16) * 10 + pd.idx as u16, inst: inst_of_path(path), args: vec![v.clone()] }];
+                            if r != Ok(()) || log != want || st.prop(pd.name) != v {
+                                problems.push((
+                                    "property-write",
+                                    format!("set({v:?}) through the proxy gave {r:?}; setter log {log:?}; server now holds {:?}", st.prop(pd.name)),
+                                ));
+                            }
+                            wait_for_cache = *cache && pd.emits;
+                        }
+                        _ => {}
+                    }
+                    let held = st.prop(pd.name);
+                    let mut got = proxy.get(pd.idx);
+                    if wait_for_cache {
+                        // The change notification travels asynchronously to the caching proxy on a
+                        // free-running connection: the property only promises that it is observed,
+                        // so poll (bounded by the watchdog of the driver).
+                        let t0 = std::time::Instant::now();
+                        while got != Ok(held.clone()) && t0.elapsed() < Duration::from_secs(5) {
+                            std::thread::sleep(Duration::from_millis(1));
+                            got = proxy.get(pd.idx);
+                        }
+                    }
+                    pair.reg.take_log();
+                    if got != Ok(held.clone()) {
+                        problems.push(("property-read", format!("after {op} the server holds {held:?} but the proxy reads {got:?}")));
+                    }
+                    send(Ev::Step {
+                        kind: "property",
+                        canon: json!({"iface": iface, "path": path, "cache": cache, "step": step}),
+                        outcome: if problems.is_empty() { op.to_string() } else { "mismatch".into() },
+                    });
+                    for (cl, t) in problems {
+                        fail(cl, "property", step.clone(), format!("{} ({}{}): {t}", pd.name, pd.sig, if pd.emits { "" } else { ", emits-changed=false" }));
+                    }
+                }
+            }
+        }
+        Job::Signals { iface, path, route } => {
+            for sd in SIGNALS.iter().filter(|s| s.iface == *iface) {
+                send(Ev::Begin(json!({"signal": sd.idx, "subscribe": true})));
+                let mut it = match proxy.subscribe(sd.idx) {
+                    Ok(i) => i,
+                    Err(e) => {
+                        fail("signal-arrives", "signal", json!({"signal": sd.idx, "subscribe": true}), format!("subscribing to {}: {e}", sd.member));
+                        continue;
+                    }
+                };
+                for args in tuples(sd.ins) {
+                    let step = json!({"signal": sd.idx, "args": vals_to_json(&args)});
+                    send(Ev::Begin(step.clone()));
+                    let em = zbus::block_on(emit_signal(&pair.server, path, *iface, sd.idx, &args, *route)).map_err(|e| e.to_string());
+                    let item = if em.is_ok() { it.next() } else { None };
+                    let ok = em == Ok(()) && item == Some(Ok(args.clone()));
+                    send(Ev::Step {
+                        kind: "signal",
+                        canon: json!({"iface": iface, "path": path, "route": route, "step": step}),
+                        outcome: if ok { "arrived".into() } else { "mismatch".into() },
+                    });
+                    if !ok {
+                        fail("signal-arrives", "signal", step, format!("{} emitted with {args:?} (emit: {em:?}); the proxy iterator yielded {item:?}", sd.member));
+                    }
+                }
+            }
+        }
+    }
+    drop(proxy);
+    send(Ev::Done);
+}
+
+/// Run one blocking job under the watchdog. Returns Err(last step begun) on a timeout.
+fn run_blocking_once(report: &Report, job: &Job, count: bool) -> Result<Vec<Bad>, J> {
+    let (tx, rx) = mpsc::channel();
+    let j = job.clone();
+    std::thread::Builder::new()
+        .name("c33-blocking".into())
+        .spawn(move || blocking_worker(j, tx))
+        .unwrap_or_else(|e| vcommon::machinery_failure(&format!("C33: cannot spawn a thread: {e}")));
+    let mut bad = vec![];
+    let mut last = json!("start");
+    loop {
+        match rx.recv_timeout(WATCHDOG) {
+            Ok(Ev::Done) => return Ok(bad),
+            Ok(Ev::Begin(s)) => last = s,
+            Ok(Ev::Step { kind, canon, outcome }) => {
+                if count {
+                    report.eval(1);
+                    report.nontrivial(hash64(&("blocking", canon.to_string())));
+                    report.outcome(&format!("blocking: {kind}: {outcome}"));
+                }
+            }
+            Ok(Ev::Fail { clause, kind, step, text }) => bad.push(Bad { clause, text, step, kind }),
+            Err(mpsc::RecvTimeoutError::Timeout) => return Err(last),
+            Err(mpsc::RecvTimeoutError::Disconnected) => {
+                bad.push(Bad { clause: "call-completes", text: "the worker thread died".into(), step: last.clone(), kind: "thread" });
+                return Ok(bad);
+            }
+        }
+    }
+}
+
+fn run_blocking(report: &Report, job: &Job) {
+    let mut sink = Sink { report, mode: "blocking", job: job.clone(), bad: vec![] };
+    match run_blocking_once(report, job, true) {
+        Ok(bad) => sink.bad = bad,
+        Err(at) => {
+            // a timeout: believe it only if it reproduces
+            let mut again = 1;
+            for _ in 0..2 {
+                match run_blocking_once(report, job, false) {
+                    Err(_) => again += 1,
+                    Ok(_) => {}
+                }
+            }
+            if again == 3 {
+                report.outcome("blocking: hang (reproduced 3 times)");
+                sink.fail(
+                    "call-completes",
+                    "hang",
+                    at.clone(),
+                    format!("operation {at} did not finish within {WATCHDOG:?} in three fresh pairs"),
+                );
+            } else {
+                vcommon::machinery_failure(&format!(
+                    "C33: blocking job {} timed out at {at} but did not reproduce ({again}/3)",
+                    job.to_json()
+                ));
+            }
+        }
+    }
+    if sink.bad.iter().any(|b| b.clause == "machinery") {
+        vcommon::machinery_failure(&format!("C33: {}", sink.bad[0].text));
+    }
+    sink.flush();
+}
+
+pub fn main(args: &Args) -> i32 {
+    if let Some(p) = &args.replay {
+        return replay(p);
+    }
+    let report = Report::new("C33", args.tier, args.seed, "exploration");
+    let js = jobs();
+    par_for(js.len(), 1, |k| {
+        run_async(&report, &js[k]);
+    });
+    let async_evals = report.evaluations();
+    par_for(js.len(), 1, |k| run_blocking(&report, &js[k]));
+    report.set("programs", json!(METHODS.len() + PROPS.len() + SIGNALS.len()));
+    report.set("proxy_objects", json!(js.len() * 2));
+    report.set("evaluations_async", json!(async_evals));
+    report.set("evaluations_blocking", json!(report.evaluations() - async_evals));
+    report.note("blocking proxies run on real threads over a socketpair: their inputs are enumerated exhaustively, their schedule is NOT controlled (one uncontrolled schedule per case)");
+    report.assume("async proxies: default schedule, every task run to quiescence after each operation (no clock); a call that does not complete there is reported as such");
+    report.assume("the handler's digest result is a deterministic, order-sensitive function of the decoded arguments, so swapped or altered arguments change the result");
+    report.assume("property change notifications reach a caching blocking proxy asynchronously; the blocking driver polls up to 5 s before judging a cached read");
+    report.finish(
+        "every bank method x full product of the argument leaf domains; every property x domain x {read, server-side change, proxy write} x cache {off, lazily}; every signal x full product x two emission routes; each through the async proxy (World) and the blocking proxy (live pair); non-trivial = distinct (mode, step)",
+        true,
+    )
+}
+
+fn replay(path: &str) -> i32 {
+    let art = vcommon::load_replay(path);
+    let r = &art["replay"];
+    let Some(job) = Job::from_json(&r["job"]) else {
+        vcommon::machinery_failure("replay: bad job");
+    };
+    let rep = Report::new("C33-replay", vcommon::Tier::Quick, 0, "exploration");
+    println!("re-running {} job {} (failing step was {})", r["mode"], r["job"], r["step"]);
+    let mut sink_bad = vec![];
+    if r["mode"] == "blocking" {
+        match run_blocking_once(&rep, &job, true) {
+            Ok(b) => sink_bad = b,
+            Err(at) => {
+                println!("timeout at {at}");
+                return 1;
+            }
+        }
+    } else {
+        for (c, t) in run_async(&rep, &job) {
+            println!("violated clause {c} at {t}");
+        }
+    }
+    for b in &sink_bad {
+        println!("violated clause {} at step {}: {}", b.clause, b.step, b.text);
+    }
+    let failed = !sink_bad.is_empty() || rep.has_violations();
+    println!("steps evaluated: {}; violations: {}", rep.evaluations(), failed);
+    failed as i32
 }
